@@ -9,6 +9,8 @@ import (
 	"os"
 	"strconv"
 	"strings"
+
+	"golang.org/x/tools/go/ssa"
 )
 
 type envVar struct {
@@ -816,6 +818,60 @@ func (st *State) recordBinding(env *Env, name string, t types.Type) {
 		st.e.recBindings[env.fnKey] = m
 	}
 	m[name] = typeKey(t)
+	if fn := st.e.fnByKey[env.fnKey]; fn != nil {
+		if k := localOrdinal(fn, name, typeKey(t)); k > 0 {
+			m[name] = fmt.Sprintf("%s@%d", typeKey(t), k)
+		}
+	}
+}
+
+var localDeclCache = map[*ssa.Function]map[string]*types.Var{}
+
+// localDecls: the named locals of a function (by their debug references), by name; a name declared twice is dropped.
+func localDecls(fn *ssa.Function) map[string]*types.Var {
+	if m, ok := localDeclCache[fn]; ok {
+		return m
+	}
+	m := map[string]*types.Var{}
+	dup := map[string]bool{}
+	for _, b := range fn.Blocks {
+		for _, in := range b.Instrs {
+			d, ok := in.(*ssa.DebugRef)
+			if !ok {
+				continue
+			}
+			obj, ok := d.Object().(*types.Var)
+			if !ok || obj.IsField() {
+				continue
+			}
+			if prev, ok := m[obj.Name()]; ok && prev != obj {
+				dup[obj.Name()] = true
+			}
+			m[obj.Name()] = obj
+		}
+	}
+	for n := range dup {
+		delete(m, n)
+	}
+	localDeclCache[fn] = m
+	return m
+}
+
+// localOrdinal: the position (1-based, in declaration order) of local name among the locals of fn whose type has
+// the given key; 0 when unknown. A pure rename keeps it.
+func localOrdinal(fn *ssa.Function, name, tkey string) int {
+	decls := localDecls(fn)
+	me, ok := decls[name]
+	if !ok {
+		return 0
+	}
+	k := 1
+	for _, o := range decls {
+		if o != me && typeKey(o.Type()) == tkey && o.Pos() < me.Pos() {
+			k++
+		}
+	}
+	return k
 }
 
 func (st *State) rebindLocal(env *Env, name string) (SVal, types.Type, bool) {
@@ -826,6 +882,11 @@ func (st *State) rebindLocal(env *Env, name string) (SVal, types.Type, bool) {
 	want, ok := tab[name]
 	if !ok {
 		return nil, nil, false
+	}
+	wantOrd := 0
+	if i := strings.LastIndex(want, "@"); i >= 0 {
+		fmt.Sscanf(want[i+1:], "%d", &wantOrd)
+		want = want[:i]
 	}
 	var cands []string
 	for n := range env.locals {
@@ -840,6 +901,18 @@ func (st *State) rebindLocal(env *Env, name string) (SVal, types.Type, bool) {
 		}
 		if t != nil && typeKey(t) == want {
 			cands = append(cands, n)
+		}
+	}
+	if len(cands) > 1 && wantOrd > 0 {
+		// several new locals of that type: take the one declared at the recorded position among the locals of the type
+		if fn := st.e.fnByKey[env.fnKey]; fn != nil {
+			var at []string
+			for _, c := range cands {
+				if localOrdinal(fn, c, want) == wantOrd {
+					at = append(at, c)
+				}
+			}
+			cands = at
 		}
 	}
 	if len(cands) != 1 {
